@@ -62,6 +62,7 @@ type Config struct {
 	TickBias int // 1 in TickBias choices prefers a tick when available (0 = uniform)
 	TickHold bool // no tick fires before the harness calls AllowTicks()
 	Stick    int  // strategy "sticky": probability (percent) of continuing with the same goroutine
+	Delays   []int    // step numbers at which the goroutine that just ran is parked until nobody else can run (a long stall at a random point)
 	Hold     []string // breakpoint: after a goroutine logged an event containing Hold[0], its next event containing Hold[1] parks it until nobody else can run (once)
 	Mem      bool // log plain memory accesses (M lines) and harness synchronisation (H lines)
 	NoTrace  bool
@@ -359,6 +360,16 @@ func Run(cfg Config, main func()) *Result {
 		}
 		g := s.gs[c]
 		s.cur = g
+		for _, d := range s.cfg.Delays {
+			if d == s.steps && g.id != 0 {
+				if s.held == nil {
+					s.held = map[int]bool{}
+				}
+				// after this step g stalls: everybody else runs until nothing else can
+				s.held[g.id] = true
+				s.logRaw("X", "hold", "stall")
+			}
+		}
 		g.wake <- struct{}{}
 		select {
 		case <-s.parked:
